@@ -71,7 +71,7 @@ PROPS = {
     "C05": _p(["B1", "B2", "B3", "B4", "B5", "B6", "B7", "B9", "B10", "B11", "P1", "N2", "X2", "L2", "L4", "I1"],
               "the bounded-write clauses named in the anchors, each by a linear proof from the dominating guards (Fourier-Motzkin over the AST's conditions, for all values): writes into fixed arrays at the frozen guard-bounded sites - recording, push-back, repeat, tag stack, auto-indent, vi key stack (B1, guard must be in element units); every strcpy/strcat/sprintf into a fixed array against an interprocedural string-length bound, every snprintf size against its array (B2); every write through a freshly malloc'ed block against the allocation size, incl. line re-termination and the growth copies under the declared struct invariants (B3, I1); the string buffer keeps s_n + written + 1 <= s_sz for allocated and fresh buffers (B4); the 512-byte command gate dominates the three part copies and the copiers write at most one byte per byte read (B5); matcher out-arrays hold 2n ints and the \\\\digit index stays inside (B6); table-bounded loops fit their arrays (B7); every lbuf_get / reg_get result is null-tested, index-proved or given only to null-tolerant callees (B9, B10); the unchecked per-line mark accessors get 0 <= i < lbuf_len (B11); register text is not used across a call that can free it (P1); a successful address resolution is a range inside the buffer (X2); the literal matcher defines all group slots and never looks before the line (L2, L4).",
               "absence of all memory errors (indices that are matcher offsets, permutation values or display columns are named exceptions listed in the evidence notes), termination / bounded time, and the %d-only sprintf calls into the small terminal buffers (width depends on window geometry)."),
-    "C06": _p(["X1", "X2", "X3", "X4", "X5", "U1"],
+    "C06": _p(["X1", "X2", "X3", "X4", "X5", "G3", "U1"],
               "all 14 ex_region call sites test the result and the fail edge reaches only failing "
               "returns with no effect on buffer, registers, marks or current line (address 0 "
               "tolerated only for a/i/c with both bounds 0) (X1); every path of ex_region to "
@@ -116,7 +116,7 @@ PROPS = {
     "C16": _p(["T1", "T2", "T3", "T4", "R5"],
               "the lead-byte length classes, masks and shifts of uc_len/uc_code equal RFC 3629's for all 256 lead bytes x continuation combinations, and the continuation-scanning uc_end agrees with the lead-byte length on well-formed input (T3); the regex engine's private uc_len/uc_dec/uc_beg equal the editor's on all well-formed inputs, by abstract evaluation of both ASTs (T2); no constant byte step is taken on line text without ASCII knowledge (T1).",
               "agreement of the helpers built on next/previous over all strings (that is exhaustive execution); T4 (character counts never used as byte offsets) is not implemented."),
-    "C11": _p(["R1", "R2", "R3", "R5", "R7", "B3", "B6"],
+    "C11": _p(["R1", "R2", "R3", "R5", "R7", "R8", "B3", "B6"],
               "the compiled program fits its allocation: rnode_count and rnode_emit/rnode_emitnorep are abstractly evaluated as cost functions (re_insert = 1, children symbolic) for every node kind and every repetition pair that rnode_atom admits (value ranges of the digit accumulation, rejection tests evaluated per cell) and estimate - emitted has only non-negative coefficients; jmpend pushes <= NREPS; regcomp adds its own 3 (R1); recursion is depth-guarded and 256 frames fit 1 MiB (R2); the private decoders and the bracket scanner never read or step past the terminator, by exhaustive abstract evaluation over all byte strings up to length 4-5 of a representative alphabet (R3); marks beyond the limit are dropped, reads of marks are index-guarded (R7); pattern allocations are exact (B3) and out-arrays large enough (B6).",
               "termination of matching in general; that offsets fall on character boundaries for literal runs rests on the pattern being valid UTF-8."),
     "C15": _p(["S4", "G1", "G2", "G4", "B11"],
